@@ -148,6 +148,7 @@ type Universe struct {
 	funOrder    []string
 	fieldIDs    map[string]int
 	axioms      []string
+	arrAx       map[string]bool
 }
 
 type StructInfo struct {
@@ -166,7 +167,7 @@ type ArrInfo struct {
 
 func NewUniverse() *Universe {
 	return &Universe{sortOfType: map[string]Sort{}, structInfo: map[Sort]*StructInfo{}, arrInfo: map[Sort]*ArrInfo{},
-		tags: map[string]int{}, strConsts: map[string]string{}, boxFns: map[Sort]bool{}, funDecls: map[string]string{}, fieldIDs: map[string]int{}}
+		tags: map[string]int{}, strConsts: map[string]string{}, boxFns: map[Sort]bool{}, funDecls: map[string]string{}, fieldIDs: map[string]int{}, arrAx: map[string]bool{}}
 }
 
 func (u *Universe) declFun(name string, decl string) {
@@ -259,9 +260,6 @@ func (u *Universe) sortOf1(t types.Type) Sort {
 			u.sortDecls = append(u.sortDecls, fmt.Sprintf("(declare-sort %s 0)", name))
 			u.declFun("aget!"+name, fmt.Sprintf("(declare-fun aget!%s (%s Int) %s)", name, name, es))
 			u.declFun("aset!"+name, fmt.Sprintf("(declare-fun aset!%s (%s Int %s) %s)", name, name, es, name))
-			u.axioms = append(u.axioms,
-				fmt.Sprintf("(assert (forall ((a %s) (i Int) (v %s)) (! (= (aget!%s (aset!%s a i v) i) v) :pattern ((aset!%s a i v)))))", name, es, name, name, name),
-				fmt.Sprintf("(assert (forall ((a %s) (i Int) (j Int) (v %s)) (! (=> (not (= i j)) (= (aget!%s (aset!%s a i v) j) (aget!%s a j))) :pattern ((aget!%s (aset!%s a i v) j)))))", name, es, name, name, name, name, name))
 		}
 		return name
 	case *types.Tuple:
@@ -295,6 +293,9 @@ func (u *Universe) structSort(name string, st *types.Struct) Sort {
 	for i := 0; i < st.NumFields(); i++ {
 		fs := u.sortOf(st.Field(i).Type())
 		acc := fmt.Sprintf("%s!%s", sname, sanitize(st.Field(i).Name()))
+		if st.Field(i).Name() == "_" {
+			acc = fmt.Sprintf("%s!blank%d", sname, i)
+		}
 		info.Fields = append(info.Fields, acc)
 		info.FSorts = append(info.FSorts, fs)
 		fdecl = append(fdecl, fmt.Sprintf("(%s %s)", acc, fs))
@@ -305,6 +306,41 @@ func (u *Universe) structSort(name string, st *types.Struct) Sort {
 		u.sortDecls = append(u.sortDecls, fmt.Sprintf("(declare-datatypes ((%s 0)) (((%s %s))))", sname, info.Ctor, strings.Join(fdecl, " ")))
 	}
 	return sname
+}
+
+// typeKey is the canonical name of a Go type used to partition heaps (type-based alias separation).
+func typeKey(t types.Type) string {
+	t = types.Unalias(t)
+	if b, ok := t.(*types.Basic); ok {
+		switch b.Kind() {
+		case types.Uint8:
+			return "uint8"
+		case types.Int32, types.UntypedRune:
+			return "int32"
+		}
+		return b.Name()
+	}
+	return sanitize(types.TypeString(t, nil))
+}
+
+func (u *Universe) elemHeapT(t types.Type) (string, Sort) {
+	return "E|" + typeKey(t), arrSort(SInt, arrSort(SInt, u.sortOf(t)))
+}
+func (u *Universe) ptrHeapT(t types.Type) (string, Sort) {
+	return "P|" + typeKey(t), arrSort(SInt, u.sortOf(t))
+}
+
+// arrSetUsed adds the read-over-write axioms for an array sort (only when a
+// store into such an array value actually occurs, to keep queries quantifier-free).
+func (u *Universe) arrSetUsed(name Sort) {
+	if u.arrAx[name] {
+		return
+	}
+	u.arrAx[name] = true
+	es := u.arrInfo[name].Elem
+	u.axioms = append(u.axioms,
+		fmt.Sprintf("(assert (forall ((a %s) (i Int) (v %s)) (! (= (aget!%s (aset!%s a i v) i) v) :pattern ((aset!%s a i v)))))", name, es, name, name, name),
+		fmt.Sprintf("(assert (forall ((a %s) (i Int) (j Int) (v %s)) (! (=> (not (= i j)) (= (aget!%s (aset!%s a i v) j) (aget!%s a j))) :pattern ((aget!%s (aset!%s a i v) j)))))", name, es, name, name, name, name, name))
 }
 
 // box / unbox for non-pointer dynamic values held in interfaces.
